@@ -38,7 +38,7 @@ func main() {
 		fmt.Println(strings.Join(ids, " "))
 		return
 	case "buckets":
-		p, err := Load(nil, nil)
+		p, err := loadEnv()
 		if err != nil {
 			fmt.Fprintln(os.Stderr, err)
 			os.Exit(2)
@@ -48,7 +48,7 @@ func main() {
 		}
 		return
 	case "stores":
-		p, err := Load(nil, nil)
+		p, err := loadEnv()
 		if err != nil {
 			fmt.Fprintln(os.Stderr, err)
 			os.Exit(2)
@@ -70,7 +70,7 @@ func main() {
 		}
 		return
 	case "routes":
-		p, err := Load(nil, nil)
+		p, err := loadEnv()
 		if err != nil {
 			os.Exit(2)
 		}
@@ -83,7 +83,7 @@ func main() {
 		}
 		return
 	case "nilsites":
-		p, err := Load(nil, nil)
+		p, err := loadEnv()
 		if err != nil {
 			os.Exit(2)
 		}
@@ -99,7 +99,7 @@ func main() {
 		}
 		return
 	case "bounds":
-		p, err := Load(nil, nil)
+		p, err := loadEnv()
 		if err != nil {
 			os.Exit(2)
 		}
@@ -168,7 +168,7 @@ func main() {
 		}
 		os.Exit(worst)
 	case "fns":
-		p, err := Load(nil, nil)
+		p, err := loadEnv()
 		if err != nil {
 			os.Exit(2)
 		}
@@ -182,7 +182,7 @@ func main() {
 		}
 		return
 	case "locks":
-		p, err := Load(nil, nil)
+		p, err := loadEnv()
 		if err != nil {
 			os.Exit(2)
 		}
@@ -197,7 +197,7 @@ func main() {
 		fmt.Println("lock sites", tot)
 		return
 	case "apimust":
-		p, err := Load(nil, nil)
+		p, err := loadEnv()
 		if err != nil {
 			os.Exit(2)
 		}
@@ -233,7 +233,7 @@ func main() {
 		fmt.Println("total", n)
 		return
 	case "panics":
-		p, err := Load(nil, nil)
+		p, err := loadEnv()
 		if err != nil {
 			os.Exit(2)
 		}
@@ -245,7 +245,7 @@ func main() {
 		}
 		return
 	case "callers":
-		p, err := Load(nil, nil)
+		p, err := loadEnv()
 		if err != nil {
 			os.Exit(2)
 		}
@@ -262,7 +262,7 @@ func main() {
 		}
 		return
 	case "dump":
-		p, err := Load(nil, nil)
+		p, err := loadEnv()
 		if err != nil {
 			fmt.Fprintln(os.Stderr, err)
 			os.Exit(2)
@@ -357,4 +357,13 @@ func dumpFnObj(p *Program, fn *ssa.Function) {
 			fmt.Printf("     + %s\n", e)
 		}
 	}
+}
+
+// loadEnv loads /repo, with the overlay of VERIF_WITNESS_PATCH when set (debug commands see the patched tree too).
+func loadEnv() (*Program, error) {
+	overlay, env, err := witnessOverlayFromEnv()
+	if err != nil {
+		return nil, err
+	}
+	return Load(overlay, env)
 }
